@@ -71,9 +71,9 @@ def z(v):
 EDGE_CONFIGS = kernel_split.EDGE_CONFIGS + ["return"]
 
 
-def build(kind, edges, funcs):
+def build(kind, edges, funcs, ff="ELF"):
     """kernel_split's module (prev | blk | nxt | tgt; f = {prev, blk, nxt}, g = {tgt}) plus: a block that returns, symbols for both functions"""
-    H = kernel_split.build(kind, "none" if edges == "return" else edges, funcs)
+    H = kernel_split.build(kind, "none" if edges == "return" else edges, funcs, getattr(gtirb.Module.FileFormat, ff))
     ir, m, bi, prev, blk, nxt, tgt = H[:7]
     if edges == "return":
         add_edge(ir.cfg, blk, add_proxy_block(m), gtirb.EdgeType.Return)
@@ -165,9 +165,9 @@ def position(cache, s):
     return z(r.offset) + (z(r.size) if s.at_end else 0), r
 
 
-def make_harness(op, kind, edges, funcs, patch):
+def make_harness(op, kind, edges, funcs, patch, ff="ELF"):
     def harness(ctx):
-        ir, m, bi, prev, blk, nxt, tgt, s_start, s_end, fl = build(kind, edges, funcs)
+        ir, m, bi, prev, blk, nxt, tgt, s_start, s_end, fl = build(kind, edges, funcs, ff)
         S, o, L = ctx.int("block_size"), ctx.int("offset"), ctx.int("length")
         ctx.assume(z3.And(S > 0, o >= 0, L >= 0, o + L <= S))
         if op == "delete":
@@ -307,7 +307,7 @@ def make_harness(op, kind, edges, funcs, patch):
     return harness
 
 
-def make_replay(op, kind, edges, funcs, patch):
+def make_replay(op, kind, edges, funcs, patch, ff="ELF"):
     def rp(clause, model):
         """native: the real insert / delete with ALL their real callees (edit_byte_interval included) on the concrete shape, at the
         model's values and at the corner values; oracle: the contract stated on concrete numbers, bytes included"""
@@ -324,7 +324,7 @@ def make_replay(op, kind, edges, funcs, patch):
         for o, L in sorted(cases):
             if op == "delete" and not (0 < L < S):
                 continue
-            ir, m, bi, prev, blk, nxt, tgt, s_start, s_end, fl = build(kind, edges, funcs)
+            ir, m, bi, prev, blk, nxt, tgt, s_start, s_end, fl = build(kind, edges, funcs, ff)
             old = bytes(bi.contents)
             if kind == "code":
                 bi.contents = bytearray(old[:1] + bytes([0x50, 0x51, 0x52, 0x53]) + old[5:])       # distinguishable bytes in the block
@@ -397,17 +397,21 @@ class setup:
 
 BOUND = ("every integer symbolic (block size, offset, length, size of every patch block); COUNTS bounded: one block with one predecessor and one successor, "
          "patches of 1..3 blocks assembled from 6 texts (one block / branch over a block / label at the end / ends with call / ends with jmp / data), 5 out-edge configurations, "
-         "with and without function information; expressions and offset-keyed tables empty")
+         "with and without function information, ELF and PE; expressions and offset-keyed tables empty")
 
 
 def jobs(tier="quick", seed=0):
-    for kind in ("code", "data"):
-        for edges in (EDGE_CONFIGS if kind == "code" else ["none"]):
-            for funcs in ((False, True) if kind == "code" else (False,)):
-                yield Job("K/compose/delete/%s/%s/%s" % (kind, edges, "funcs" if funcs else "nofuncs"), make_harness("delete", kind, edges, funcs, None), setup=setup, replay=make_replay("delete", kind, edges, funcs, None), kind="S", meta={"bound": BOUND},
-                          func="gtirb_rewriting._modify.edit:delete/_cleanup_modified_blocks", expect_cover=("returned",), timeout_ms=30000)
-                for patch in PATCHES:
-                    if (patch == "data") != (kind == "data"):
-                        continue
-                    yield Job("K/compose/insert/%s/%s/%s/%s" % (kind, edges, "funcs" if funcs else "nofuncs", patch), make_harness("insert", kind, edges, funcs, patch), setup=setup, replay=make_replay("insert", kind, edges, funcs, patch), kind="S", meta={"bound": BOUND},
-                              func="gtirb_rewriting._modify.edit:insert/_cleanup_modified_blocks", expect_cover=("returned",), timeout_ms=30000)
+    for ff in ("ELF", "PE"):
+        for kind in ("code", "data"):
+            for edges in (EDGE_CONFIGS if kind == "code" else ["none"]):
+                for funcs in ((False, True) if kind == "code" else (False,)):
+                    sfx = "" if ff == "ELF" else "/PE"
+                    yield Job("K/compose/delete/%s/%s/%s%s" % (kind, edges, "funcs" if funcs else "nofuncs", sfx), make_harness("delete", kind, edges, funcs, None, ff), setup=setup,
+                              replay=make_replay("delete", kind, edges, funcs, None, ff), kind="S", meta={"bound": BOUND},
+                              func="gtirb_rewriting._modify.edit:delete/_cleanup_modified_blocks", expect_cover=("returned",), timeout_ms=30000)
+                    for patch in PATCHES:
+                        if (patch == "data") != (kind == "data"):
+                            continue
+                        yield Job("K/compose/insert/%s/%s/%s/%s%s" % (kind, edges, "funcs" if funcs else "nofuncs", patch, sfx), make_harness("insert", kind, edges, funcs, patch, ff), setup=setup,
+                                  replay=make_replay("insert", kind, edges, funcs, patch, ff), kind="S", meta={"bound": BOUND},
+                                  func="gtirb_rewriting._modify.edit:insert/_cleanup_modified_blocks", expect_cover=("returned",), timeout_ms=30000)
